@@ -81,6 +81,29 @@ pub struct C05Trace {
     /// for really long outputs (kilobytes): only the capacities 0, 1, L-1, L, L+1, L+2
     #[serde(default)]
     pub edge_caps_only: bool,
+    /// additionally every capacity from L+3 to 3L+8 (otherwise a fixed set of roomy capacities)
+    #[serde(default)]
+    pub roomy_sweep: bool,
+}
+
+/// Capacities well above the output length: code guarded by "there is plenty of room" (wide
+/// stores, staging areas in the unused part of the buffer) runs only there, and must leave the
+/// rest of the buffer untouched just the same. `pl` is the length of the plain encoding.
+fn roomy_caps(l: usize, pl: usize, sweep: bool, edge_only: bool) -> Vec<usize> {
+    let mut v: Vec<usize> = Vec::new();
+    if crate::runner::small() || edge_only {
+        v.extend([l + 8, l + 16, l + 17, l + 64, 2 * l + 3]);
+    } else {
+        v.extend(l + 3..=l + 24);
+        v.extend([l + 31, l + 32, l + 33, l + 64, l + 100, l + 255, l + 256, 2 * l, 2 * l + 1, 2 * l + 3, 3 * l + 1, 4 * l, 2 * pl, 2 * pl + 1, 1024, 4096]);
+        if sweep {
+            v.extend(l + 25..=3 * l + 8);
+        }
+    }
+    v.retain(|c| *c > l + 2 && *c <= arena::RW);
+    v.sort_unstable();
+    v.dedup();
+    v
 }
 
 #[derive(Clone, Debug, Serialize, Deserialize)]
@@ -246,7 +269,8 @@ mod p {
     pub const COBS_RUN_EXACTLY_254: usize = 15;
     pub const HUGE_SIZE: usize = 16;
     pub const HUGE_SIZE_OVER_4G: usize = 17;
-    pub const NAMES: [&str; 18] = [
+    pub const ROOMY_UNTOUCHED: usize = 18;
+    pub const NAMES: [&str; 19] = [
         "failure_on_the_very_last_byte",
         "capacity_zero",
         "cobs_sentinel_push_fails_in_finalize",
@@ -265,6 +289,7 @@ mod p {
         "longest_non_zero_run_of_plain_encoding_is_exactly_254",
         "size_counter_on_a_multi_megabyte_value",
         "size_counter_on_a_value_longer_than_4_GiB",
+        "success_in_a_roomy_slice_rest_untouched",
     ];
 }
 
@@ -472,9 +497,14 @@ fn exec_c05(t: &C05Trace, out: &mut Outcome<C05Trace>) {
                     let mut v = vec![0, 1, l.saturating_sub(1), l, l + 1, l + 2];
                     v.sort_unstable();
                     v.dedup();
+                    v.extend(roomy_caps(l, plain.len(), false, true));
                     v
                 }
-                None => (0..=l + 2).collect(),
+                None => {
+                    let mut v: Vec<usize> = (0..=l + 2).collect();
+                    v.extend(roomy_caps(l, plain.len(), t.roomy_sweep, false));
+                    v
+                }
             };
             for c in caps {
                 out.extra[X_SERIALISATIONS] += 1;
@@ -559,6 +589,9 @@ fn exec_c05(t: &C05Trace, out: &mut Outcome<C05Trace>) {
                                 out.probe(p::EXACT_FIT);
                             } else {
                                 out.probe(p::SLACK_UNTOUCHED);
+                            }
+                            if c > l + 2 {
+                                out.probe(p::ROOMY_UNTOUCHED);
                             }
                         }
                         Err(e) => {
@@ -796,6 +829,7 @@ impl Scenario for C05 {
         } else {
             Msg::gen_fitting(rng, &cfg, budget)
         };
+        let roomy_sweep = budget <= 270 && rng.chance(1, 8) && !crate::runner::small();
         // now and then: the size counter on a value of several gigabytes (around 2^31, 2^32, 2^33)
         let huge = if rng.chance(1, 400) && !crate::runner::small() {
             let target: u128 = match rng.below(6) {
@@ -824,9 +858,9 @@ impl Scenario for C05 {
                     val: Val::Seq(vec![Val::Uint(1), Val::Bytes(data), Val::Uint(70000)]),
                 },
             };
-            return C05Trace { msg, focus: None, huge: None, edge_caps_only: true };
+            return C05Trace { msg, focus: None, huge: None, edge_caps_only: true, roomy_sweep: false };
         }
-        C05Trace { msg, focus: None, huge, edge_caps_only: false }
+        C05Trace { msg, focus: None, huge, edge_caps_only: false, roomy_sweep }
     }
     fn exec(t: &C05Trace, out: &mut Outcome<C05Trace>) {
         exec_c05(t, out)
@@ -846,7 +880,7 @@ impl Scenario for C05 {
         for m in shape::shrink_msg(&t.msg) {
             // a shrunk message has another output length: re-enumerate capacities for the same
             // framing/storage by dropping the capacity focus but keeping framing/storage
-            v.push(C05Trace { msg: m, focus: None, huge: t.huge.clone(), edge_caps_only: t.edge_caps_only });
+            v.push(C05Trace { msg: m, focus: None, huge: t.huge.clone(), edge_caps_only: t.edge_caps_only, roomy_sweep: t.roomy_sweep });
         }
         v
     }
@@ -860,10 +894,10 @@ impl Scenario for C05 {
             1 => Storage::SliceStartGuard,
             _ => return None,
         };
-        Some(C05Trace { msg: t.msg.clone(), focus: Some(Focus { framing, storage, cap: ctx[3] as usize }), huge: None, edge_caps_only: false })
+        Some(C05Trace { msg: t.msg.clone(), focus: Some(Focus { framing, storage, cap: ctx[3] as usize }), huge: None, edge_caps_only: false, roomy_sweep: false })
     }
     fn rule() -> &'static str {
-        "one case = one value (dynamic shape over the whole serde data model, boundary-biased) x one framing (plain, COBS, CRC-8/16/32/64/128, CRC-32 over COBS) with the fault 'sink runs out at byte c' enumerated completely: every slice capacity c in 0..=L+2 at both guard placements, every instantiated heapless capacity <= L+2 and the next one above; plus size counter, Vec, VecDeque, recording Extend sink. distinct_nontrivial counts distinct (set of kinds in the shape, output length L, framing) with L >= 2, so that at least one capacity fails after a partial write."
+        "one case = one value (dynamic shape over the whole serde data model, boundary-biased) x one framing (plain, COBS, CRC-8/16/32/64/128, CRC-32 over COBS) with the fault 'sink runs out at byte c' enumerated completely: every slice capacity c in 0..=L+2 at both guard placements plus roomy capacities (L+3..L+24, L+32, L+64, 2L, 3L+1, 4096, ...; for one value in eight every capacity up to 3L+8), every instantiated heapless capacity <= L+2 and the next one above; plus size counter, Vec, VecDeque, recording Extend sink. distinct_nontrivial counts distinct (set of kinds in the shape, output length L, framing) with L >= 2, so that at least one capacity fails after a partial write."
     }
     fn real_components() -> &'static [&'static str] {
         &[
